@@ -50,12 +50,16 @@ def handle (j : Json) : Except String Json := do
     let mode ← modeOf (← jstr j "mode")
     let idents ← jStrList (← jarr j "idents")          -- non-ASCII strings that are identifiers
     let parsable ← jStrList (← jarr j "parsable")
+    let craises ← (match jarr j "compileRaises" with
+      | .ok a => jStrList a
+      | .error _ => pure [])
     let unimp ← jStrList (← jarr j "unimportable")
     let everr ← jStrList (← jarr j "evalerr")
     let exactFirst ← jbool j "exactFirst"
     let env : Env := {
       isIdent := fun s => if isAscii s then asciiIdent s else idents.contains s
       parsable := fun s => parsable.contains s
+      compileRaises := fun s => craises.contains s
       outcome := fun s => if unimp.contains s then .unimportable else if everr.contains s then .error else .value
       exactFirst := exactFirst }
     match parseAutoApply env spec argv stdin mode with
